@@ -17,3 +17,5 @@ import L21.Props.C14RT
 #print axioms L21.RawProto.c14_proto_layout_roundtrip
 #print axioms L21.RawProto.c14_library
 #print axioms L21.RawProto.c14_abstract
+#print axioms L21.RawProto.c14_converse_fails_on_second_purpose_number
+#print axioms L21.RawProto.c14_converse_no_exporter
